@@ -104,6 +104,8 @@ pub fn oracle(c: &Case, st: &mut Stats) -> Verdict {
     let (v, acc, max_den, max_whole) = (c.v(), c.acc(), c.max_den, c.max_whole);
     // documented preconditions of new_approx (it panics otherwise): 0 <= accuracy <= 1, max_den <= 64
     assert!((0.0..=1.0).contains(&acc) && max_den <= 64);
+    // a call with looser limits right before (same thread): nothing of it may carry over
+    let _ = guard(|| (Number::new_approx(v, 1.0, 64, u32::MAX), Number::new_approx(v, acc, 64, u32::MAX)));
     let r = match guard(|| Number::new_approx(v, acc, max_den, max_whole)) {
         Ok(r) => r,
         Err(p) => vbail!("c12.panic", "new_approx({v:e}, {acc}, {max_den}, {max_whole}) panicked: {p}"),
@@ -375,6 +377,8 @@ lb = { max_denominator = 3 }
 kg = { enabled = true, max_denominator = 4 }
 cup = { accuracy = 0.5 }
 ml = { enabled = false }
+gal = { max_denominator = 1 }
+oz = { max_denominator = 0, accuracy = 0.3 }
 [[quantity]]
 quantity = "volume"
 [quantity.units]
